@@ -236,12 +236,19 @@ async fn run(ctx: &mut Ctx, npeers: usize, seed: u64, gone_kind: u64, case: &Val
     // ---- a peer that has gone (the socket observed the end)
     if npeers >= 1 {
         let g = r.below(npeers);
-        let kind = if gone_kind == 0 { EndKind::Eof } else { EndKind::Reset };
+        let kind = if gone_kind == 0 || gone_kind == 3 { EndKind::Eof } else { EndKind::Reset };
         if gone_kind == 2 {
             // mid-frame
             peers[g].conn.feed(&[0x00, 0x09, 0x01]);
         }
-        peers[g].conn.close_full(kind);
+        if gone_kind == 3 {
+            // orderly close as TCP shows it: our reads see EOF, but a write still
+            // "succeeds" (it would only be answered by a reset later)
+            peers[g].conn.end_inbound(kind);
+            ctx.count("gone_by_fin_with_writes_still_accepted");
+        } else {
+            peers[g].conn.close_full(kind);
+        }
         // the socket observes it while receiving
         let rn = recv_now(&mut sock).await;
         if let Some(Ok(m)) = rn {
@@ -388,7 +395,7 @@ impl Prop for C09 {
         let mut v = Vec::new();
         for n in 1..=6usize {
             for k in 0..tier.pick(60, 600) {
-                v.push(json!({"kind": "run", "peers": n, "seed": mix(seed ^ (k as u64) << 4 ^ n as u64), "gone": k % 3}));
+                v.push(json!({"kind": "run", "peers": n, "seed": mix(seed ^ (k as u64) << 4 ^ n as u64), "gone": k % 4}));
             }
         }
         for observed in [false, true] {
@@ -421,6 +428,7 @@ impl Prop for C09 {
             ("sends_to_live_peer", 1000),
             ("sends_to_unknown_identity", 300),
             ("sends_to_gone_peer", 200),
+            ("gone_by_fin_with_writes_still_accepted", 50),
             ("reconnects_before_the_end_was_observed", 4),
             ("reconnects_after_the_end_was_observed", 4),
         ]
